@@ -7,8 +7,32 @@ static int constraint_type_resolve(arg_t *arg, asn1p_constraint_t *ct);
 static int constraint_object_resolve(arg_t *arg, asn1p_value_t *value);
 static int constraint_value_resolve(arg_t *arg, asn1p_value_t **value, enum asn1p_constraint_type_e real_ctype);
 
+static int asn1constraint_pullup_impl(arg_t *arg);
+
 int
 asn1constraint_pullup(arg_t *arg) {
+	asn1p_expr_t *expr = arg->expr;
+	int ret;
+
+	/*
+	 * Recursive loops detection: A ::= INTEGER (A)
+	 */
+	if(expr->_mark & TM_RECURSION) {
+		FATAL("Constraints of type \"%s\" at line %d depend on "
+			"the type itself",
+			expr->Identifier, expr->_lineno);
+		return -1;
+	}
+
+	expr->_mark |= TM_RECURSION;
+	ret = asn1constraint_pullup_impl(arg);
+	expr->_mark &= ~TM_RECURSION;
+
+	return ret;
+}
+
+static int
+asn1constraint_pullup_impl(arg_t *arg) {
 	asn1p_expr_t *expr = arg->expr;
 	asn1p_expr_t *top_parent;
 	asn1p_constraint_t *ct_parent;
